@@ -14,6 +14,18 @@ PROPS = {
         "design_ref": "§6 C14",
         "technique": "Lean 4 proof: parser ↔ inductive RFC 1035 §4.1.4 relation (sound+complete, no panic, termination); model tied to src/name/wire.rs by differential correspondence incl. exhaustive ≤5-octet buffers",
     },
+    "C17": {
+        "groups": ["codes"],
+        "design_ref": "§6 C17",
+        "technique": "Lean 4 proof over the extracted mnemonic tables: display→parse round trip for all 65536 values × 4 kinds (decimal print/parse lemma by induction + finite table facts by kernel evaluation), RFC 3597 TYPEnnn/CLASSnnn for every value and every case variant of the word, 4-bit conversions; Rust's u16::from_str / eq_ignore_ascii_case / str::get modelled on UTF-8 octets; model tied to the source by an exhaustive differential run (all values, all case variants of all mnemonics)",
+        "assumptions": [
+            "core::num u16::from_str, str::eq_ignore_ascii_case, str::get/is_char_boundary and Display for u16 are re-implemented in the model (QV/Model/Codes.lean) and compared with the real ones through the harness on every case",
+        ],
+        "evidence_notes": [
+            "exhaustive in both tiers: crt/cdisp over 4 kinds × 65536 values, copc/crc over 256, cext over 65536, every ASCII-case variant of every mnemonic × 4 kinds, the exact word + one random case variant of TYPE/CLASS × 65536 values × 4 kinds",
+            "known finding D13: mnemonic arms `match Caseless(text) { Caseless(\"IN\") => … }` are structural patterns, i.e. case-sensitive; Lean: C17_counterexample / C17_mnemonic_variant_rejected; C17_partial excludes exactly KF_caseVariant",
+        ],
+    },
 }
 
 TRUSTED_BASE = [
